@@ -54,7 +54,7 @@ class Filter(base.Filter):
                 # XXX: we do not look at the preceding event, so we never omit
                 # the body element's start tag if it's followed by a script or
                 # a style element.
-                return next["name"] not in ('script', 'style', 'meta', 'link', 'template')
+                return next["name"] not in ('script', 'style', 'meta', 'link', 'template', 'noscript')
             else:
                 return True
         elif tagname == 'colgroup':
